@@ -30,6 +30,9 @@ type Sym struct {
 
 const BadUser = "refuse-me"
 
+// Approve is the application's logon policy used by the step-driven checks: only user/pw is approved.
+func Approve(username, password string) bool { return username == "user" && password == "pw" }
+
 // Alphabet returns the inbound/local symbols used by the step-driven checks.
 func Alphabet() []Sym {
 	good := func(hbSel int) func(p *Peer, lim [2]int) []byte {
@@ -48,11 +51,19 @@ func Alphabet() []Sym {
 		{Name: "LogonGood", LogonClass: LogonGood, Type: "A", Build: good(0)},
 		{Name: "LogonGoodMinHb", LogonClass: LogonGood, Type: "A", Build: good(1)},
 		{Name: "LogonGoodMaxHb", LogonClass: LogonGood, Type: "A", Build: good(2)},
-		{Name: "LogonHbBelowMin", LogonClass: LogonHbLow, Type: "A", Build: func(p *Peer, lim [2]int) []byte { return p.Logon(lim[0]-1, "0") }},
-		{Name: "LogonHbAboveMax", LogonClass: LogonHbHigh, Type: "A", Build: func(p *Peer, lim [2]int) []byte { return p.Logon(lim[1]+1, "0") }},
-		{Name: "LogonBadMethod", LogonClass: LogonBadMethod, Type: "A", Build: func(p *Peer, lim [2]int) []byte { return p.Logon(mid(lim), "1") }},
+		{Name: "LogonHbBelowMin", LogonClass: LogonHbLow, Type: "A", Build: func(p *Peer, lim [2]int) []byte { return p.Logon(lim[0]-1, "0", fixref.F(TUser, "user"), fixref.F(TPass, "pw")) }},
+		{Name: "LogonHbAboveMax", LogonClass: LogonHbHigh, Type: "A", Build: func(p *Peer, lim [2]int) []byte { return p.Logon(lim[1]+1, "0", fixref.F(TUser, "user"), fixref.F(TPass, "pw")) }},
+		{Name: "LogonBadMethod", LogonClass: LogonBadMethod, Type: "A", Build: func(p *Peer, lim [2]int) []byte { return p.Logon(mid(lim), "1", fixref.F(TUser, "user"), fixref.F(TPass, "pw")) }},
 		{Name: "LogonCredsRefused", LogonClass: LogonCredsRefused, Type: "A", Build: func(p *Peer, lim [2]int) []byte {
 			return p.Logon(mid(lim), "0", fixref.F(TUser, BadUser), fixref.F(TPass, "x"))
+		}},
+		// well-formed Logons that simply omit a field: nothing may be inherited from an earlier Logon
+		{Name: "LogonNoCredentials", LogonClass: LogonCredsRefused, Type: "A", Build: func(p *Peer, lim [2]int) []byte { return p.Logon(mid(lim), "0") }},
+		{Name: "LogonNoHeartBtInt", LogonClass: LogonHbLow, Type: "A", Build: func(p *Peer, lim [2]int) []byte {
+			return p.Msg("A", fixref.F(TEncrypt, "0"), fixref.F(TUser, "user"), fixref.F(TPass, "pw"))
+		}},
+		{Name: "LogonNoEncryptMethod", LogonClass: LogonBadMethod, Type: "A", Build: func(p *Peer, lim [2]int) []byte {
+			return p.Msg("A", fixref.F(THeartBt, strconv.Itoa(mid(lim))), fixref.F(TUser, "user"), fixref.F(TPass, "pw"))
 		}},
 		{Name: "LogonBadChecksum", LogonClass: LogonBadChecksum, Type: "A", Build: func(p *Peer, lim [2]int) []byte { return BadChecksum(p.Logon(mid(lim), "0")) }},
 		{Name: "LogonBadLength", LogonClass: LogonBadLength, Type: "A", Build: func(p *Peer, lim [2]int) []byte { return BadLength(p.Logon(mid(lim), "0")) }},
